@@ -30,6 +30,8 @@ type Parser struct {
 	prevPos            int
 
 	errors []string
+	// for each [ being parsed: is it the index of a[...] (where the open ended a[n:] is allowed) or an array literal?
+	bracketIsIndex []bool
 
 	prefixParseFns  map[token.Type]prefixParseFn
 	infixParseFns   map[token.Type]infixParseFn
@@ -177,7 +179,9 @@ func (p *Parser) parseArrayLiteral() ast.Node {
 	array := &ast.ArrayLiteral{}
 	array.Token = p.curToken
 
+	p.bracketIsIndex = append(p.bracketIsIndex, false)
 	array.Elements = p.parseExpressionList(token.RBRACKET)
+	p.bracketIsIndex = p.bracketIsIndex[:len(p.bracketIsIndex)-1]
 
 	return array
 }
@@ -517,7 +521,8 @@ func (p *Parser) parseInfixExpression(left ast.Node) ast.Node {
 
 	precedence := p.curPrecedence()
 	// handle [n:] case
-	if (expression.Token.Type() == token.COLON) && (p.peekToken.Type() == token.RBRACKET) {
+	if (expression.Token.Type() == token.COLON) && (p.peekToken.Type() == token.RBRACKET) &&
+		len(p.bracketIsIndex) > 0 && p.bracketIsIndex[len(p.bracketIsIndex)-1] { // (not the array literal [n:])
 		return expression
 	}
 	p.nextToken()
@@ -705,7 +710,9 @@ func (p *Parser) parseIndexExpression(left ast.Node) ast.Node {
 	if isDot {
 		prec = ast.DOTINDEX
 	}
+	p.bracketIsIndex = append(p.bracketIsIndex, !isDot)
 	exp.Index = p.parseExpression(prec)
+	p.bracketIsIndex = p.bracketIsIndex[:len(p.bracketIsIndex)-1]
 	if isDot {
 		return exp
 	}
